@@ -209,7 +209,7 @@ CHECK_DEADLOCK FALSE
 LAYOUT_DEFS = 'Jobs == ndJsonDeserialize("layout_jobs.ndjson")\nTJobAt(i) == Jobs[i]\nTNumJobs == Len(Jobs)'
 BASE_STYLE = {"ws": " ", "ows": "", "eol": "\n", "ind": "  ", "blank": 0, "cmt": 0, "trail": "", "multi": False, "lead": "", "fin": "\n"}
 STYLE_SPACE = {"ws": [" ", "\t", "   "], "ows": ["", " "], "eol": ["\n", "\r\n"], "ind": ["  ", "\t", "", "      "], "blank": [0, 1, 2], "cmt": [0, 1],
-               "trail": ["", " # t", "   ", " # see #12 # more"], "multi": [False, True], "lead": ["", "\n", "  \n\n", "# hdr\n", "  # a\n  # b\n"], "fin": ["", "\n", "\n\n"]}
+               "trail": ["", " # t", "   ", " # see #12 # more", "\t", " \t "], "multi": [False, True], "lead": ["", "\n", "  \n\n", "# hdr\n", "  # a\n  # b\n"], "fin": ["", "\n", "\n\n"]}
 NVIOL = 13
 
 
